@@ -119,6 +119,23 @@ Proof.
   split; [|exact Z]. apply R. rewrite Z. pose proof (resume_threshold_pos (max (st_sm st'))). lia.
 Qed.
 
+(** 5. Buffer pool: over every history of checkouts and returns, the number of
+    buffers in use is the number of checkouts held (back to 0 when all are
+    returned), within the capacity, within the maximum; and a checkout is
+    refused only when the pool is exhausted (also for a pool created empty). *)
+Theorem pool_balance :
+  forall (mn mx : N) (ops : list pop),
+    let p := fold_left pool_step ops (pool_new mn mx) in
+    p_used p = N.of_nat (length (p_held p)) /\ p_used p <= p_cap p /\ p_cap p <= p_max p /\
+    (p_held p = [] -> p_used p = 0) /\
+    (forall id, lmem id (p_held p) = false -> p_used p < p_max p -> snd (pool_checkout p id) = true).
+Proof.
+  intros mn mx ops p. pose proof (pool_run_ok ops (pool_new mn mx) (pool_new_ok mn mx)) as OK. fold p in OK.
+  destruct OK as (A & B & C & D). repeat split; auto.
+  - intros E. rewrite A, E. reflexivity.
+  - intros id L U. apply pool_checkout_live; [repeat split; assumption|assumption|assumption].
+Qed.
+
 (* ------------------------------------------------------------------ *)
 (** non-vacuity *)
 
@@ -142,4 +159,9 @@ Proof. split; [repeat constructor|vm_compute; reflexivity]. Qed.
 Example accept_resumes_nonvacuous :
   let st := run_ops init [ONew 1 0; OAccept 0; OAccept 1] in
   live st = [0] /\ can_accept (st_sm st) = false /\ can_accept (st_sm (close st 0)) = true.
+Proof. vm_compute. repeat split. Qed.
+
+Example pool_balance_nonvacuous :
+  let p := fold_left pool_step [PCheckout 0; PCheckout 1; PCheckout 2; PCheckin 1] (pool_new 0 2) in
+  p_used p = 1 /\ p_cap p = 2 /\ p_held p = [0] /\ snd (pool_checkout (pool_new 0 2) 5) = true.
 Proof. vm_compute. repeat split. Qed.
